@@ -11,7 +11,14 @@ through hashing/equality and the statement constrains no ordering other than mos
 every transition *before* states are merged.  Some configurations add a menu of update() calls (iterable: list,
 tuple, generator, str; mapping: dict, Counter, mappingproxy, UserDict; keyword counts next to an iterable/mapping;
 the counter's own lazy views elements() / iterkeys() as the iterable of keys - the additions are then whatever the
-view yields, recorded while update() consumes it).
+view yields, recorded while update() consumes it).  updates='shapes' configurations pass further argument types:
+iterables of keys (set, frozenset, dict keys view, list iterator, deque, list subclass, an object with __iter__ only,
+an object with __getitem__/__len__ only), mappings (OrderedDict, defaultdict, ChainMap, dict subclass, a
+collections.abc.Mapping subclass that is no dict), objects that implement the whole Mapping protocol without
+inheriting from or being registered with collections.abc.Mapping (items()/keys()/values() returning lists, or
+one-shot iterators), another ThresholdCounter (the class calls itself a "dict-like Mapping from keys to counts"; the
+additions are the pairs its items() reports just before the call), and empty arguments.  After every update() the
+caller empties the container it passed.
 Key types: most configurations use 1-character strings; 'mixed:<r>' configurations draw the keys from a fixed list
 of pairwise unequal hashable objects of different, mutually unorderable types (None, int, str, complex, tuples
 holding None, float, bytes, frozenset), rotated by r.  Histories, true counts and reported cases stay in terms of key
@@ -24,7 +31,7 @@ object being driven by a representative stream for each abstract state.  All ora
 Oracles after every operation (state oracle; a failing transition is not expanded):
     the call returns, total == number of additions                       C20|op:<op shape>|raised / total
         (op shapes: add, update(iterable), update(mapping), update(iterable,**counts), update(mapping,**counts),
-        update(own-lazy-view))
+        update(own-lazy-view), update(duck-typed-mapping), update(ThresholdCounter))
     for every key of the stream (and one never-added key), reported = tc[k] if k in tc else 0:
     reported <= true, true - reported <= floor(total / floor(1/threshold))
                                        C20|invariant:over-count / under-count>slack / frequent-key-absent
@@ -33,9 +40,16 @@ Oracles after every operation (state oracle; a failing transition is not expande
                                        the published Lossy Counting algorithm, run on the same stream, itself holds more
                                        than 2/threshold entries and the object holds no more entries than it.
 Read oracles (only in sound states): get(k), len, items, keys, values, elements, most_common() and most_common(n)
-against the per-key counts; get_common_count() + get_uncommon_count() == total.
+against the per-key counts (n in 0, 1, 2, len-1, len, len+1, 99); get_common_count() + get_uncommon_count() == total.
+Reads are also part of the history: before the operation under examination the caller reads most_common(), items(),
+keys(), values(), the two sums and starts an elements() iterator, and edits the lists it was handed (reverse, append a
+row) - so every (state, operation) pair is explored as read, operation, read.  Second look (histories of at most
+SECOND_LOOK_OPS operations, after a clean first look): the caller edits every list the readers returned and reads
+per-key counts, len, items, keys, values, most_common(), most_common(n>=len), most_common(n<len) again with no
+addition in between; they must still agree with the per-key counts     C20|read:<reader>|second-read-after-caller-edited-earlier-results
 """
 import collections
+import collections.abc
 import fractions
 import itertools
 import math
@@ -51,12 +65,22 @@ LEVEL = 'model_checking'
 KEYS = string.ascii_lowercase + string.ascii_uppercase
 NEVER = 'never_added'
 STEP_CPU_S = 10.0
+SECOND_LOOK_OPS = 12          # the second look (see Spec.second_look) follows histories of at most this many operations
 SIZE_SIG = 'C20|invariant:size<=2/threshold'
 SIZE_TAG = 'textbook_lossy_counting_also_exceeds'
 # pairwise unequal hashable keys; neighbours are not orderable against each other (TypeError on <)
 MIXED = (None, 404, 'timeout', 1j, ('GET', None), 2j, ('GET', 200), 2.5, b'x', frozenset((1,)))
 MIXED_NEVER = ('never_added', None)
 VIEW_OPS = ('ve', 'vk')
+SCRIBBLE = ('<row added by the caller>', 10 ** 6)
+# further argument types for update(): iterables of keys ...
+ITER_KINDS = {'uS': 'set', 'uF': 'frozenset', 'uv': 'dict-keys-view', 'ui': 'list-iterator', 'uq': 'deque',
+              'uI': 'object-with-__iter__-only', 'uG': 'object-with-__getitem__/__len__-only', 'uL': 'list-subclass'}
+# ... mappings of key to count that are dict subclasses / collections.abc.Mapping instances ...
+MAP_KINDS = {'mo': 'OrderedDict', 'mf': 'defaultdict', 'mh': 'ChainMap', 'ms': 'dict-subclass',
+             'ma': 'collections.abc.Mapping-subclass'}
+# ... and objects that implement the whole Mapping protocol without inheriting from / being registered with it
+DUCK_KINDS = {'mq': 'duck-typed-mapping(lists)', 'mi': 'duck-typed-mapping(iterators)'}
 
 
 def key_name(i):
@@ -153,9 +177,9 @@ def additions(op):
     if isinstance(op, str):
         return [(op, 1)]
     kind = op[0]
-    if kind in ('ul', 'ut', 'ug', 'us'):
+    if kind in ('ul', 'ut', 'ug', 'us') or kind in ITER_KINDS:
         return [(k, 1) for k in op[1]]
-    if kind in ('md', 'mc', 'mp', 'mu'):
+    if kind in ('md', 'mc', 'mp', 'mu', 'mt') or kind in MAP_KINDS or kind in DUCK_KINDS:
         return [(k, n) for k, n in op[1]]
     if kind == 'kw':
         return [(k, 1) for k in op[1]] + [(k, n) for k, n in op[2]]
@@ -169,11 +193,17 @@ def additions(op):
 _SHAPE = {'ul': 'update(iterable)', 'ut': 'update(iterable)', 'ug': 'update(iterable)', 'us': 'update(iterable)',
           'md': 'update(mapping)', 'mc': 'update(mapping)', 'mp': 'update(mapping)', 'mu': 'update(mapping)',
           'kw': 'update(iterable,**counts)', 'mkw': 'update(mapping,**counts)',
-          've': 'update(own-lazy-view)', 'vk': 'update(own-lazy-view)'}
+          've': 'update(own-lazy-view)', 'vk': 'update(own-lazy-view)', 'mt': 'update(ThresholdCounter)'}
+_SHAPE.update({k: 'update(iterable)' for k in ITER_KINDS})
+_SHAPE.update({k: 'update(mapping)' for k in MAP_KINDS})
+_SHAPE.update({k: 'update(duck-typed-mapping)' for k in DUCK_KINDS})
 _LABEL = {'ul': 'update(list)', 'ut': 'update(tuple)', 'ug': 'update(generator)', 'us': 'update(str)',
           'md': 'update(dict)', 'mc': 'update(Counter)', 'mp': 'update(mappingproxy)', 'mu': 'update(UserDict)',
           'kw': 'update(list,**counts)', 'mkw': 'update(dict,**counts)',
-          've': 'update(self.elements())', 'vk': 'update(self.iterkeys())'}
+          've': 'update(self.elements())', 'vk': 'update(self.iterkeys())',
+          'mt': 'update(another ThresholdCounter)'}
+for _kinds in (ITER_KINDS, MAP_KINDS, DUCK_KINDS):
+    _LABEL.update({k: 'update(%s)' % v for k, v in _kinds.items()})
 
 
 def opsig(op):
@@ -198,9 +228,168 @@ def recording(view, fed, dec):
         yield k
 
 
+class IterOnly:
+    """An iterable of keys that is nothing else (no __len__, no __getitem__)."""
+
+    def __init__(self, keys):
+        self._keys = list(keys)
+
+    def __iter__(self):
+        return iter(self._keys)
+
+
+class LegacySeq:
+    """An iterable of keys through the sequence protocol only (__getitem__ with 0, 1, ... until IndexError)."""
+
+    def __init__(self, keys):
+        self._keys = list(keys)
+
+    def __getitem__(self, i):
+        return self._keys[i]
+
+    def __len__(self):
+        return len(self._keys)
+
+
+class ListSub(list):
+    pass
+
+
+class DictSub(dict):
+    pass
+
+
+class AbcMap(collections.abc.Mapping):
+    """A read-only mapping that is not a dict."""
+
+    def __init__(self, pairs):
+        self._pairs = list(pairs)
+
+    def __getitem__(self, key):
+        for k, v in self._pairs:
+            if k == key:
+                return v
+        raise KeyError(key)
+
+    def __iter__(self):
+        return iter([k for k, _ in self._pairs])
+
+    def __len__(self):
+        return len(self._pairs)
+
+
+class DuckMap:
+    """A mapping of key to count by protocol only: every method of collections.abc.Mapping, no inheritance from it,
+    no registration with it.  lazy=True: keys()/items()/values() are one-shot iterators instead of lists."""
+
+    def __init__(self, pairs, lazy=False):
+        self._pairs, self._lazy = list(pairs), lazy
+
+    def _out(self, seq):
+        return iter(seq) if self._lazy else seq
+
+    def __getitem__(self, key):
+        for k, v in self._pairs:
+            if k == key:
+                return v
+        raise KeyError(key)
+
+    def __iter__(self):
+        return iter([k for k, _ in self._pairs])
+
+    def __len__(self):
+        return len(self._pairs)
+
+    def __contains__(self, key):
+        return any(k == key for k, _ in self._pairs)
+
+    def __eq__(self, other):
+        return isinstance(other, DuckMap) and sorted(map(repr, self._pairs)) == sorted(map(repr, other._pairs))
+
+    __hash__ = None
+
+    def get(self, key, default=None):
+        for k, v in self._pairs:
+            if k == key:
+                return v
+        return default
+
+    def keys(self):
+        return self._out([k for k, _ in self._pairs])
+
+    def values(self):
+        return self._out([v for _, v in self._pairs])
+
+    def items(self):
+        return self._out(list(self._pairs))
+
+    def clear(self):            # the caller's own later edit (see impl_apply), not part of the protocol update() needs
+        del self._pairs[:]
+
+
+def make_argument(kind, keys, pairs):
+    """The positional argument of update() for an operation kind -> (argument, object the caller edits afterwards)."""
+    if kind == 'ul':
+        a = list(keys)
+    elif kind == 'ut':
+        return tuple(keys), None
+    elif kind == 'ug':
+        return (k for k in keys), None
+    elif kind == 'us':
+        return ''.join(keys), None
+    elif kind == 'uS':
+        a = set(keys)
+    elif kind == 'uF':
+        return frozenset(keys), None
+    elif kind == 'uv':
+        d = dict.fromkeys(keys, 7)
+        return d.keys(), None
+    elif kind == 'ui':
+        return iter(list(keys)), None
+    elif kind == 'uq':
+        a = collections.deque(keys)
+    elif kind == 'uI':
+        a = IterOnly(keys)
+        return a, a._keys
+    elif kind == 'uG':
+        a = LegacySeq(keys)
+        return a, a._keys
+    elif kind == 'uL':
+        a = ListSub(keys)
+    elif kind in ('md', 'kw', 'mkw'):
+        a = dict(pairs) if kind != 'kw' else list(keys)
+    elif kind == 'mc':
+        a = collections.Counter(dict(pairs))
+    elif kind == 'mp':
+        d = dict(pairs)
+        return types.MappingProxyType(d), d
+    elif kind == 'mu':
+        a = collections.UserDict(dict(pairs))
+    elif kind == 'mo':
+        a = collections.OrderedDict(pairs)
+    elif kind == 'mf':
+        a = collections.defaultdict(int, pairs)
+    elif kind == 'mh':
+        d = dict(pairs)
+        return collections.ChainMap({}, d), d
+    elif kind == 'ms':
+        a = DictSub(pairs)
+    elif kind == 'ma':
+        a = AbcMap(pairs)
+        return a, a._pairs
+    elif kind in DUCK_KINDS:
+        a = DuckMap(pairs, lazy=(kind == 'mi'))
+    else:
+        raise AssertionError(kind)
+    return a, a
+
+
 def impl_apply(tc, op, enc=_same, dec=_same):
-    """Execute op -> (status, exception name or None, fed); fed is None unless op is a view operation, then the
-    additions the view was seen to yield."""
+    """Execute op -> (status, exception name or None, fed); fed is None unless the additions are only known by
+    executing the operation (view operations: the keys the view was seen to yield; another ThresholdCounter as the
+    mapping: the pairs it reported just before the call).
+    After update() has returned the caller empties the container it passed (its own object): the additions were made
+    by the call, later edits of the argument are no additions."""
     fed = None
     try:
         if isinstance(op, str):
@@ -212,33 +401,28 @@ def impl_apply(tc, op, enc=_same, dec=_same):
             view = tc.elements() if kind == 've' else tc.iterkeys()
             tc.update(recording(view, fed, dec))
             return ('ok', None, fed)
+        if kind == 'mt':
+            src = type(tc)(threshold=0.001)          # bucket width 1000: exact for the few additions made here
+            for k, n in op[1]:
+                for _ in range(n):
+                    src.add(enc(k))
+            fed = [(dec(k), c) for k, c in src.items()]
+            tc.update(src)
+            for k, n in op[1]:                       # the caller goes on using its other counter
+                src.add(enc(k))
+            return ('ok', None, fed)
         keys = pairs = None
         if kind[0] == 'm':
             pairs = [(enc(k), n) for k, n in op[1]]
         else:
             keys = [enc(k) for k in op[1]]
-        if kind == 'ul':
-            tc.update(list(keys))
-        elif kind == 'ut':
-            tc.update(tuple(keys))
-        elif kind == 'ug':
-            tc.update(k for k in keys)
-        elif kind == 'us':
-            tc.update(''.join(keys))
-        elif kind == 'md':
-            tc.update(dict(pairs))
-        elif kind == 'mc':
-            tc.update(collections.Counter(dict(pairs)))
-        elif kind == 'mp':
-            tc.update(types.MappingProxyType(dict(pairs)))
-        elif kind == 'mu':
-            tc.update(collections.UserDict(dict(pairs)))
-        elif kind == 'kw':
-            tc.update(list(keys), **{enc(k): n for k, n in op[2]})
-        elif kind == 'mkw':
-            tc.update(dict(pairs), **{enc(k): n for k, n in op[2]})
+        arg, mine = make_argument(kind, keys, pairs)
+        if kind in ('kw', 'mkw'):
+            tc.update(arg, **{enc(k): n for k, n in op[2]})
         else:
-            raise AssertionError(op)
+            tc.update(arg)
+        if mine is not None:
+            mine.clear()
         return ('ok', None, fed)
     except AssertionError:
         raise
@@ -278,6 +462,13 @@ def guarded(fn, limit=None):
         return 'raised ' + type(e).__name__
 
 
+def limited(raw, limit):
+    """What guarded(fn, limit) would have returned for a reader whose unmaterialised result is raw."""
+    if isinstance(raw, str):
+        return raw
+    return guarded(lambda: raw, limit)
+
+
 def check_most_common(got, n, per, dec=_same):
     """None, or what is wrong with most_common's result (n None = omitted); per is keyed by key names."""
     if not isinstance(got, list):
@@ -312,7 +503,7 @@ class Spec:
         self.wf, self.we = widths(threshold)
         self.w_slack = min(self.wf, self.we)     # the more permissive reading where the two differ
         self.config = {'threshold': threshold, 'search': mode, 'keys': nkeys,
-                       'updates': updates if updates == 'views' else bool(updates),
+                       'updates': updates if updates in ('views', 'shapes') else bool(updates),
                        'max_ops': depth, 'w=floor(1/threshold)': self.wf, 'w(exact rational)': self.we,
                        '2/threshold': 2 / threshold, 'key_types': key_types}
         if key_types == 'str':
@@ -443,6 +634,14 @@ class Spec:
         else:
             x = used[0]
             y = key_name(m) if m < self.nkeys else used[-1]
+        if self.updates == 'shapes':                     # further types of iterable / mapping, empty arguments
+            ops = [(kind, (y, x, y)) for kind in ITER_KINDS if kind not in ('uS', 'uF', 'uv')]
+            ops += [('uS', (x, y)), ('uF', (y,)), ('uv', (y, x)), ('ul', ()), ('ug', ()), ('md', ()), ('mq', ())]
+            for kind in list(MAP_KINDS) + list(DUCK_KINDS) + ['mt']:
+                ops += [(kind, ((y, 1), (x, 3))), (kind, ((x, 2),))]
+            if self.key_types == 'str':
+                ops += [('mkw', (), ((x, 1), (y, 2))), ('kw', (), ())]
+            return ops
         ops = [('ul', (x,)), ('ul', (y, x, y)), ('ut', (x, y)), ('ug', (y, y, x)), ('us', (x, y, x)),
                ('md', ((x, 2),)), ('md', ((y, 1), (x, 3))), ('md', ((x, 0), (y, 2))),
                ('mc', ((x, 2), (y, 1))), ('mp', ((y, 2),)), ('mu', ((x, 1), (y, 2))),
@@ -483,10 +682,13 @@ class Spec:
         """Apply op to the object and to the true counts; state oracle, then (if sound) the read battery.
         Returns (violations, ok, label)."""
         V = []
-        case = self.case(hist, op)
+        cases = []
         name = opsig(op)
 
         def bad(kind, what, exp, obs, tags=(), detail=None):
+            if not cases:                                # built on the first violation only
+                cases.append(self.case(hist, op))
+            case = cases[0]
             if kind == 'op':
                 sig = 'C20|op:%s|%s' % (name, what)
             elif kind == 'read':
@@ -495,6 +697,7 @@ class Spec:
                 sig = what
             V.append((sig, case, exp, core.jsonable(obs), detail, tuple(tags)))
 
+        self.look_before(tc)
         r = impl_apply(tc, op, self.enc, self.dec)
         model.apply(op, r[2])
         label = (oplabel(op), 'ok' if r[0] == 'ok' else r[1])
@@ -538,11 +741,34 @@ class Spec:
             bad('invariant', SIZE_SIG, 'len <= 2/threshold = %r' % (2 / self.threshold), n, tags=tags,
                 detail={'threshold': self.threshold, 'w': self.wf, 'additions': model.adds,
                         'entries held by textbook Lossy Counting on the same stream': ref})
-        self.battery(tc, model, per, slack, bad)
+        self.battery(tc, model, per, slack, bad, second=len(hist) < SECOND_LOOK_OPS)
         return V, True, label
 
-    def battery(self, tc, model, per, slack, bad):
+    @staticmethod
+    def look_before(tc):
+        """The caller reads the derived views *before* the operation under examination, edits the lists it was handed
+        (they are its own) and leaves an elements() iterator half-consumed: the reads after the operation are then
+        reads of an object that has been read before (history: read, add/update, read)."""
+        for name in ('most_common', 'items', 'keys', 'values', 'get_common_count', 'get_uncommon_count'):
+            try:
+                r = getattr(tc, name)()
+                if type(r) is list:
+                    scribble(r)
+            except Exception:                 # a reader that raises is reported by the reads after the operation
+                pass
+        try:
+            next(tc.elements(), None)
+        except Exception:
+            pass
+
+    def battery(self, tc, model, per, slack, bad0, second=True):
         adds = model.adds
+        found = []
+        handed = []
+
+        def bad(*a, **kw):
+            found.append(a)
+            bad0(*a, **kw)
         n = guarded(lambda: len(tc))
         if n != len(per):
             bad('read', 'len|number-of-present-keys', len(per), n)
@@ -557,28 +783,39 @@ class Spec:
                 bad('read', 'get|under-count>slack', 'true count %d - reported <= %d' % (t, slack), g)
         lim = len(per) + len(model.true) + 2
         want_items = sorted(per.items())
-        got = guarded(lambda: tc.items(), lim)
+        want_keys, want_values = sorted(per), sorted(per.values())
+        raw = guarded(lambda: tc.items())
+        handed.append(raw)
+        got = limited(raw, lim)
         if not (isinstance(got, list) and _sorted(self.named_pairs(got)) == want_items):
             bad('read', 'items|disagrees-with-per-key-counts', want_items, got)
-        got = guarded(lambda: tc.keys(), lim)
-        if not (isinstance(got, list) and _sorted(self.names(got)) == sorted(per)):
-            bad('read', 'keys|disagrees-with-per-key-counts', sorted(per), got)
-        got = guarded(lambda: tc.values(), lim)
-        if not (isinstance(got, list) and _sorted(got) == sorted(per.values())):
-            bad('read', 'values|disagrees-with-per-key-counts', sorted(per.values()), got)
+        raw = guarded(lambda: tc.keys())
+        handed.append(raw)
+        got = limited(raw, lim)
+        if not (isinstance(got, list) and _sorted(self.names(got)) == want_keys):
+            bad('read', 'keys|disagrees-with-per-key-counts', want_keys, got)
+        raw = guarded(lambda: tc.values())
+        handed.append(raw)
+        got = limited(raw, lim)
+        if not (isinstance(got, list) and _sorted(got) == want_values):
+            bad('read', 'values|disagrees-with-per-key-counts', want_values, got)
         got = guarded(lambda: tc.elements(), adds + 1)
         want = sorted(k for k, c in per.items() for _ in range(c))
         if not (isinstance(got, list) and _sorted(self.names(got)) == want):
             bad('read', 'elements|disagrees-with-per-key-counts', want, got)
-        got = guarded(lambda: tc.most_common(), lim)
+        raw = guarded(lambda: tc.most_common())
+        handed.append(raw)
+        got = limited(raw, lim)
         bad_mc = check_most_common(got, None, per, self.dec)
         if bad_mc:
             bad('read', 'most_common()|' + bad_mc[0], 'all %d pairs, descending count' % len(per), bad_mc[1])
         L = len(per)
-        for nn in sorted({1, 2, L - 1, L, L + 1, 99}):
-            if nn < 1:
+        for nn in sorted({0, 1, 2, L - 1, L, L + 1, 99}):
+            if nn < 0:
                 continue
-            got = guarded(lambda: tc.most_common(nn), lim)
+            raw = guarded(lambda: tc.most_common(nn))
+            handed.append(raw)
+            got = limited(raw, lim)
             bad_mc = check_most_common(got, nn, per, self.dec)
             if bad_mc:
                 bad('read', 'most_common(%s)|%s' % ('n<len' if nn < L else 'n>=len', bad_mc[0]),
@@ -588,6 +825,43 @@ class Spec:
             bad('read', 'get_common_count+get_uncommon_count|!=total', adds, [cc, uc])
         elif cc != sum(per.values()):
             bad('read', 'get_common_count|!=sum-of-tracked-counts', sum(per.values()), cc)
+        if second and not found:
+            self.second_look(tc, per, handed, (want_items, want_keys, want_values), lim, bad)
+
+    def second_look(self, tc, per, handed, wants, lim, bad):
+        """The caller edits the lists the readers handed out (its own objects) and reads again, no addition in
+        between: per-key counts unchanged, derived views still agree with them.  Only after a clean first look."""
+        seen = set()
+        for lst in handed:
+            if type(lst) is list and id(lst) not in seen:
+                seen.add(id(lst))
+                scribble(lst)
+        what = 'second-read-after-caller-edited-earlier-results'
+        now = {}
+        for k in per:
+            now[k] = guarded(lambda: tc[self.enc(k)])
+        n = guarded(lambda: len(tc))
+        if now != per or n != len(per):
+            bad('read', 'per-key-counts|' + what, sorted(per.items()), [n, sorted(now.items())])
+            return
+        want_items, want_keys, want_values = wants
+        got = guarded(lambda: tc.items(), lim)
+        if not (isinstance(got, list) and _sorted(self.named_pairs(got)) == want_items):
+            bad('read', 'items|' + what, want_items, got)
+        got = guarded(lambda: tc.keys(), lim)
+        if not (isinstance(got, list) and _sorted(self.names(got)) == want_keys):
+            bad('read', 'keys|' + what, want_keys, got)
+        got = guarded(lambda: tc.values(), lim)
+        if not (isinstance(got, list) and _sorted(got) == want_values):
+            bad('read', 'values|' + what, want_values, got)
+        L = len(per)
+        for nn in (None, L + 1) + ((L - 1,) if L > 1 else ()):
+            got = guarded((lambda: tc.most_common()) if nn is None else (lambda: tc.most_common(nn)), lim)
+            bad_mc = check_most_common(got, nn, per, self.dec)
+            if bad_mc:
+                bad('read', 'most_common(%s)|%s' % ('' if nn is None else 'n<len' if nn < L else 'n>=len', what),
+                    'as at the first read: %s' % ('all pairs' if nn is None else 'top %d pairs' % nn)
+                    + ' of %r, descending count' % (want_items,), [bad_mc[0], bad_mc[1]])
 
 
 def _sorted(x):
@@ -595,6 +869,12 @@ def _sorted(x):
         return sorted(x)
     except Exception:
         return None
+
+
+def scribble(lst):
+    """What a caller may do to a list it was handed: reorder it and add a row of its own."""
+    lst.reverse()
+    lst.append(SCRIBBLE)
 
 
 # ----------------------------------------------------------------------------------------------------
@@ -632,6 +912,8 @@ def configs(tier):
             (0.34, A, 4, False, 8, 'mixed:0'), (0.25, A, 5, False, 9, 'mixed:3'), (0.25, A, 3, True, 5, 'mixed:6'),
             (0.5, A, 3, 'views', 9), (0.3, A, 4, 'views', 8), (0.25, A, 3, 'views', 9), (0.19, A, 4, 'views', 8),
             (0.1, A, 5, 'views', 8), (0.25, A, 4, 'views', 7, 'mixed:6'),
+            (0.5, A, 3, 'shapes', 5), (0.3, A, 3, 'shapes', 4), (0.25, A, 3, 'shapes', 5),
+            (0.25, A, 3, 'shapes', 4, 'mixed:1'),
             (0.5, B, None, False, 32), (third, B, None, False, 30), (0.25, B, None, False, 30),
             (0.19, B, None, False, 30), (sixth, B, None, False, 36),
         ]
@@ -648,6 +930,8 @@ def configs(tier):
         (0.5, A, 3, 'views', 11), (0.34, A, 4, 'views', 10), (0.3, A, 4, 'views', 10), (0.25, A, 3, 'views', 11),
         (0.25, A, 4, 'views', 10), (0.19, A, 4, 'views', 10), (0.1, A, 5, 'views', 10), (0.001, A, 4, 'views', 9),
         (0.25, A, 4, 'views', 8, 'mixed:6'),
+        (0.5, A, 3, 'shapes', 6), (0.3, A, 3, 'shapes', 5), (0.25, A, 3, 'shapes', 6), (0.19, A, 3, 'shapes', 5),
+        (0.001, A, 3, 'shapes', 3), (0.25, A, 3, 'shapes', 5, 'mixed:1'), (0.34, A, 4, 'shapes', 4, 'mixed:7'),
         (0.5, B, None, False, 40), (0.34, B, None, False, 40), (third, B, None, False, 40), (0.3, B, None, False, 40),
         (0.25, B, None, False, 40), (0.21, B, None, False, 40), (0.19, B, None, False, 40), (0.17, B, None, False, 36),
         (sixth, B, None, False, 38), (0.15, B, None, False, 36), (seventh, B, None, False, 42),
@@ -682,8 +966,11 @@ def run(ctx):
         'up to its max_ops.  accuracy: <= keys interchangeable keys (restricted growth; one representative per '
         'identical record), state = total, bucket, sorted (tracked, count, entry, true count) records; updates=True adds '
         'the update() argument shapes of update_menu, updates=views adds update(self.elements()) / '
-        'update(self.iterkeys()) (additions = the keys the view is seen to yield); key_types mixed:<r> uses keys of '
-        'mutually unorderable types.  size: unlimited '
+        'update(self.iterkeys()) (additions = the keys the view is seen to yield), updates=shapes adds further '
+        'iterable / mapping / duck-typed mapping / ThresholdCounter / empty arguments; key_types mixed:<r> uses keys of '
+        'mutually unorderable types.  Every transition is: caller reads the views and edits the returned lists, the '
+        'operation, state oracle, reads; for histories of <= %d operations a second round of reads after the caller '
+        'edited the lists returned by the first.  size: unlimited ' % SECOND_LOOK_OPS +
         'fresh keys, state = (total mod w, multiset of count + entry - bucket) read off the real object.'))
     cov['exhaustive'] = all(r.capped is None or r.capped.startswith('depth') for _, r in parts)
     cov['size_bound_searches'] = size_rows
@@ -700,6 +987,15 @@ def run(ctx):
         'update(mapping) / keyword counts stand for count additions of each key (order immaterial to the oracle); keyword '
         'counts are passed next to an iterable or mapping argument; update(**counts) alone and update(None) are not '
         'explored (the statement does not fix them)',
+        'a mapping of key to count is any object implementing the methods of collections.abc.Mapping (Python glossary: '
+        '"mapping"), whether or not it inherits from / is registered with the ABC; objects offering only part of the '
+        'protocol (keys() and __getitem__ but no items(), or items() alone) are not passed.  A ThresholdCounter (by its '
+        'own documentation a "dict-like Mapping from keys to counts"; it has keys/items/values/get/__getitem__/__len__/'
+        '__contains__ but no __iter__) is passed as the mapping in update(ThresholdCounter), reported under its own '
+        'op shape',
+        'lists returned by items/keys/values/most_common and containers passed to update() belong to the caller: editing '
+        'them afterwards is no operation on the counter, the statement\'s demands on later reads are unchanged',
+        'most_common(0) is the top 0 pairs: an empty list',
         'get_common_count() is additionally compared with the sum of the tracked per-key counts (its documented meaning)',
         'the textbook Lossy Counting model only scopes the size finding (tag %s): the tag is set when the published '
         'algorithm itself holds > 2/threshold entries on the same stream and the object holds no more than it' % SIZE_TAG]
